@@ -151,7 +151,10 @@ impl Scenario for Events {
         cfg.set = if rng.bool() { 2 } else { 1 };
         cfg.map = rng.bool();
         // C04 needs get_modifiers(), which only Keyboard has; C14 alternates
-        cfg.obj = if self.prop == EProp::C14 && (run / 4) % 2 == 1 { 1 } else { 0 };
+        // C14: every other block of four runs drives a bare EventDecoder (change_layout exists only
+        // there); C04: one block in eight - without a getter the modifier record shows in what the
+        // recording layout is handed
+        cfg.obj = if (self.prop == EProp::C14 && (run / 4) % 2 == 1) || (self.prop == EProp::C04 && (run / 4) % 8 == 5) { 1 } else { 0 };
         let rate_class = (run % 4) as u8;
         cfg.rate = rate_class;
         let rate_pct = [0u64, 2, 10, 30][rate_class as usize];
